@@ -514,11 +514,21 @@ func makeClassesReady(p *slip.Package) {
 }
 
 func classChanged(cc slip.Class, p *slip.Package) {
+	var stale []isStandardClass
 	for _, c := range p.AllClasses() {
 		if c.Inherits(cc) {
 			if sc, ok := c.(isStandardClass); ok {
-				sc.mergeSupers()
+				stale = append(stale, sc)
 			}
 		}
+	}
+	// A merge copies the inherit lists of the direct superclasses so a class
+	// must be merged after its superclasses. The inherit list of a class is
+	// longer than that of any of its superclasses.
+	sort.SliceStable(stale, func(i, j int) bool {
+		return len(stale[i].InheritsList()) < len(stale[j].InheritsList())
+	})
+	for _, sc := range stale {
+		sc.mergeSupers()
 	}
 }
